@@ -97,6 +97,14 @@ func siteHook(site int32) {
 	}
 }
 
+// Snap remembers the value a variable has now (a shallow copy) and returns the function
+// that puts it back: the generated reset of the analyzer package's run state restores what
+// the package looked like when main started.
+func Snap[T any](p *T) func() {
+	saved := *p
+	return func() { *p = saved }
+}
+
 // Zero puts a variable back to its zero value (used by the generated reset of the
 // analyzer package's run state between two simulated driver processes).
 func Zero[T any](p *T) {
